@@ -1013,9 +1013,8 @@ impl Rasn {
                         let delegate_id = &format!("Inner_{field_enum_name}_{index}")
                             .parse::<TokenStream>()
                             .unwrap();
-                        let range_constraints = self
-                            .format_range_annotations(signed_range, ty.constraints())
-                            .unwrap();
+                        let range_constraints =
+                            self.format_range_annotations(signed_range, ty.constraints())?;
                         let alphabet_constraints = character_string_type
                             .and_then(|c| {
                                 self.format_alphabet_annotations(c, ty.constraints()).ok()
